@@ -90,7 +90,26 @@ def d2(ctx, F):
     ctx.touch(pf, bf)
     fb = pf.calls_to(PUB + "flush_batch")
     sf = pf.calls_to("selium_protocol::bistream::BiStream::finish")
-    if ctx.check(len(fb) == 1 and len(sf) == 1, "C03.D2.partial-batch", "finish:shape", "Publisher::finish calls flush_batch and BiStream::finish", pf.span):
+    if PUB + "flush_batch" not in F.bodies:
+        # the flush helper has been folded into finish(): the same obligations, stated on finish() itself — a non-empty batch is
+        # sent (send_batch) on every path to BiStream::finish
+        keepf = [PUB + "send_batch", "selium_protocol::bistream::BiStream::finish", "selium_protocol::bistream::BiStream::finish::{closure#0}"] + [p_ for p_ in F.bodies if p_.startswith(MB)]
+        pfi = F.inlined(pf, keep=keepf)
+        sbc = pfi.calls_to(PUB + "send_batch")
+        ie = pfi.calls_to(MB + "is_empty")
+        sfi = pfi.calls_to("selium_protocol::bistream::BiStream::finish")
+        ok = False
+        if len(sbc) == 1 and len(ie) == 1 and len(sfi) == 1:
+            for i, bl in enumerate(pfi.blocks):
+                sc = flow.switch_condition(pfi, i)
+                if sc and sc.get("kind") == "call" and sc["call"] is ie[0]:
+                    nonempty = sc["true"] if sc.get("neg") else sc["false"]
+                    empty = sc["false"] if sc.get("neg") else sc["true"]
+                    ok = sbc[0].bb in pfi.reachable(nonempty) and sbc[0].bb not in flow.reach_avoiding(pfi, [empty], [i]) and \
+                        sfi[0].bb not in flow.reach_avoiding(pfi, [nonempty], [sbc[0].bb, i])
+        ctx.check(ok, "C03.D2.partial-batch", "finish:flush_batch-not-first", "finish() sends the partially filled batch (send_batch when the batch is not empty) on every path before the stream is finished", pf.span)
+        ctx.check(True, "C03.D2.partial-batch", "flush_batch:condition", "(the flush helper is folded into finish(): condition checked there)", pf.span)
+    elif ctx.check(len(fb) == 1 and len(sf) == 1, "C03.D2.partial-batch", "finish:shape", "Publisher::finish calls flush_batch and BiStream::finish", pf.span):
         te = K.try_edges(pf, fb[0])
         ok = pf.dominates(fb[0].bb, sf[0].bb) and te is not None and te[0] is not None and pf.dominates(te[0], sf[0].bb)
         ctx.check(ok, "C03.D2.partial-batch", "finish:flush_batch-not-first", "the partially filled batch is framed (flush_batch, error propagated) before the stream is finished", fb[0].span)
@@ -102,6 +121,8 @@ def d2(ctx, F):
     ctx.check(len(deleg) == 1 and len(aw) == 1, "C03.D2.partial-batch", "keepalive-finish:bypasses-publisher-finish",
               "KeepAlive<Publisher>::finish awaits Publisher::finish (which frames the partial batch) rather than closing the sink itself", kf.span)
     # flush_batch really sends a non-empty batch
+    if PUB + "flush_batch" not in F.bodies:
+        return _d2_rest(ctx, F, bf)
     fbb = F.body(PUB + "flush_batch")
     ctx.touch(fbb)
     fbb = F.inlined(fbb, keep=[PUB + "send_batch"] + [p_ for p_ in F.bodies if p_.startswith(MB)])
@@ -116,6 +137,13 @@ def d2(ctx, F):
                 empty = sc["false"] if sc.get("neg") else sc["true"]
                 ok = sbc[0].bb in fbb.reachable(nonempty) and sbc[0].bb not in flow.reach_avoiding(fbb, [empty], [i])
     ctx.check(ok, "C03.D2.partial-batch", "flush_batch:condition", "flush_batch sends the batch exactly when it is not empty", fbb.span)
+    _d2_rest(ctx, F, bf)
+
+
+def _d2_rest(ctx, F, bf):
+    pf = F.one_body(r"^selium::streams::pubsub::publisher::Publisher::<E, Item>::finish::\{closure#0\}$")
+    sf = pf.calls_to("selium_protocol::bistream::BiStream::finish")
+    fb = pf.calls_to(PUB + "flush_batch")
     # framed writer flushed before SendStream::finish
     qf = [c for c in bf.calls() if strip_generics(c.callee) == "quinn::send_stream::SendStream::finish"]
     ctx.floor("C03.D2.flush-before-finish.sites", len(qf), 1)
@@ -179,24 +207,68 @@ def is_optional(body, call, field_hint):
 
 
 def d3(ctx, F):
-    ss = F.body(PUB + "send_single")
+    ss_folded = PUB + "send_single" not in F.bodies          # the single-frame helper folded into start_send
+    ss = F.body(PUB + "send_single") if not ss_folded else None
     sb = F.body(PUB + "send_batch")
     st = F.one_body(r"^<selium::streams::pubsub::publisher::Publisher<E, Item> as futures_sink::Sink<Item>>::start_send$")
     sub = F.one_body(r"^<selium::streams::pubsub::subscriber::Subscriber<D, Item> as futures_core::stream::Stream>::poll_next$")
     dm = F.body("selium::streams::pubsub::subscriber::Subscriber::<D, Item>::decode_message")
-    ctx.touch(ss, sb, st, sub, dm)
+    ctx.touch(*[x for x in (ss, sb, st, sub, dm) if x is not None])
     # private helpers (e.g. a shared `compress_payload` / `decompress`) are looked through; the stage functions themselves stay calls
     keep = [PUB + "send_single", PUB + "send_batch", PUB + "flush_batch", dm.path, "selium_protocol::utils::encode_message_batch", "selium_protocol::utils::decode_message_batch"] + \
            [p for p in F.bodies if p.startswith(MB) or p.startswith("<selium::batching")]
-    ss, sb, st, sub, dm = [F.inlined(x, keep=keep) for x in (ss, sb, st, sub, dm)]
+    ss, sb, st, sub, dm = [F.inlined(x, keep=keep) if x is not None else None for x in (ss, sb, st, sub, dm)]
 
     def shape(body, blocks=None):
         return [(n + ("?" if is_optional(body, c, None) else "")) for n, c in pipeline_ops(body, blocks)]
     frames = lambda b: [rv["variant"] for i, j, pl, rv, s in K.aggregates(b, "selium_protocol::frame::Frame")]
-    pub_single = shape(st)[:1] + shape(ss)
+    single_region = None
+    if ss_folded:
+        # the un-batched branch of start_send is the single-frame path
+        for i, bl in enumerate(st.blocks):
+            v = flow.switch_on_variant(st, i)
+            if v and v[1] == "core::option::Option" and "MessageBatch" in st.local_ty(v[0]["l"]):
+                some_t, none_t = v[2].get("Some", v[3]), v[2].get("None", v[3])
+                single_region = flow.reach_avoiding(st, [none_t], [i]) - flow.reach_avoiding(st, [some_t], [i])
+        if not ctx.check(single_region is not None, "C03.D3.publisher-shape", "publisher:no-batch-test", "start_send tests whether batching is configured", st.span):
+            return
+        ss_shape = [x for x in shape(st, single_region) if x != "push"]
+        ss_frames = [rv["variant"] for i, j, pl, rv, s in K.aggregates(st, "selium_protocol::frame::Frame", single_region)]
+    else:
+        ss_shape, ss_frames = shape(ss), frames(ss)
+    # when a compressor is configured every frame is compressed — whatever the payload (the receiving side decompresses whenever a
+    # decompressor is configured): from the Some edge of the test of the compressor, no frame is built without passing compress()
+    for body_, label in ((st if ss_folded else ss, "single"), (sb, "batch")):
+        for i, bl in enumerate(body_.blocks):
+            v = flow.switch_on_variant(body_, i)
+            if not (v and v[1] == "core::option::Option" and "Compress" in v[5]):
+                continue
+            some_t = v[2].get("Some", v[3])
+            comp = [c for c in body_.calls() if strip_generics(c.callee) == "selium_std::traits::compression::Compress::compress" and c.bb in flow.reach_avoiding(body_, [some_t], [i])]
+            builds = [i2 for i2, j2, pl2, rv2, s2 in K.aggregates(body_, "selium_protocol::frame::Frame")]
+            skipping = [i2 for i2 in builds if i2 in flow.reach_avoiding(body_, [some_t], [c.bb for c in comp] + [i])]
+            # .. and the Option tested is the configured compressor itself (as_ref / copies), not a filtered view of it
+            cur, narrowed = v[0]["l"], []
+            for _ in range(6):
+                d_ = flow.single_def(body_, cur)
+                if d_ and d_[0] == "call":
+                    if d_[2].name() not in ("as_ref", "as_mut", "as_deref", "as_deref_mut", "clone", "copied", "cloned", "deref", "borrow"):
+                        narrowed.append(d_[2])
+                    cur = op_local(d_[2].args[0]) if d_[2].args else None
+                elif d_ and d_[0] == "assign" and d_[3]["k"] in ("use", "ref"):
+                    pl_ = d_[3]["op"]["pl"] if d_[3]["k"] == "use" and d_[3]["op"].get("k") in ("copy", "move") else d_[3].get("pl")
+                    cur = pl_["l"] if pl_ and not [e for e in pl_["p"] if e != "*"] else None
+                else:
+                    cur = None
+                if cur is None:
+                    break
+            skipping += [c.bb for c in narrowed]
+            ctx.check(bool(comp) and not skipping, "C03.D3.compress-unconditional", "publisher:%s:compression-skipped" % label,
+                      "with a compressor configured, every %s frame is built from compressed bytes (no payload-dependent bypass)" % label, bl["term"].get("span", body_.span))
+    pub_single = shape(st)[:1] + ss_shape
     pub_batch = shape(st)[:1] + shape(sb)
-    ctx.check(shape(st)[:1] == ["encode"] and frames(ss) == ["Message"] and frames(sb) == ["BatchMessage"], "C03.D3.publisher-shape", "publisher:pipeline-shape",
-              "publisher: start_send encodes; send_single builds Frame::Message from %s; send_batch builds Frame::BatchMessage from %s" % (shape(ss), shape(sb)), st.span)
+    ctx.check(shape(st)[:1] == ["encode"] and ss_frames == ["Message"] and frames(sb) == ["BatchMessage"], "C03.D3.publisher-shape", "publisher:pipeline-shape",
+              "publisher: start_send encodes; the single-frame path builds Frame::Message from %s; send_batch builds Frame::BatchMessage from %s" % (ss_shape, shape(sb)), st.span)
     sws = K.find_variant_switches(sub, "selium_protocol::frame::Frame")
     if not ctx.check(len(sws) == 1, "C03.D3.subscriber-shape", "subscriber:frame-match", "the subscriber matches once on the frame kind", sub.span):
         return
@@ -225,12 +297,15 @@ def d3(ctx, F):
             none_calls = [n for n, c in pipeline_ops(st, flow.reach_avoiding(st, [none_t], [i]) - flow.reach_avoiding(st, [some_t], [i]))]
             if some_calls == ["push"] and none_calls == ["->single"]:
                 okb = True
+            if ss_folded and some_calls == ["push"] and "push" not in none_calls and single_region is not None and \
+                    [rv["variant"] for i2, j2, pl2, rv, s2 in K.aggregates(st, "selium_protocol::frame::Frame", single_region)] == ["Message"]:
+                okb = True
     ctx.check(okb, "C03.D3.batching-branch", "start_send:branch", "start_send pushes into the batch when batching is on and sends a single frame otherwise", st.span)
 
 
 def d4(ctx, F):
     bodies = [b for p, b in sorted(F.bodies.items()) if p.startswith(MB) or p.startswith("<selium::batching::message_batch::MessageBatch as ")]
-    bodies += [F.body(PUB + "send_batch"), F.body(PUB + "flush_batch"), F.body(PUB + "send_single")]
+    bodies += [F.body(x) for x in (PUB + "send_batch", PUB + "flush_batch", PUB + "send_single") if x in F.bodies or x == PUB + "send_batch"]
     for m in ("poll_ready", "start_send", "poll_flush", "poll_close"):
         bodies.append(F.one_body(r"^<selium::streams::pubsub::publisher::Publisher<E, Item> as futures_sink::Sink<Item>>::%s$" % m))
     bodies += [b for p, b in sorted(F.bodies.items()) if p.startswith("selium::batching::batch_config::BatchConfig::")]
